@@ -21,6 +21,9 @@ import typing
 import icontract
 LOG = []
 FCOUNT = {"n": 0}
+def tagged(fn):
+    fn.tag = "T"
+    return fn
 class InstanceOnly:
     """a descriptor which is available only on instances"""
     def __get__(self, obj, owner=None):
@@ -337,6 +340,8 @@ def render_class(style, inv, child, dbc, contracts):
                   "    q2 = property(_get_q, doc='explicit q2 doc')\n") +
                "    def swap(this, self):\n        return ('swap', self)\n"
                "    def util(x):\n        return ('util', x)\n"
+               # a method which carries an attribute set by a foreign decorator and (in the contracted twin) a contract of its own
+               + ("    @icontract.require(lambda self: True)\n" if contracts else "") + "    @tagged\n    def tg(self):\n        return 'tg'\n"
                "    def pub(self, x):\n        return ('pub', x)\n    @property\n    def p(self):\n        \"\"\"doc of p\"\"\"\n        return 7\n"
                "    @staticmethod\n    def sm(x):\n        return ('sm', x)\n    @classmethod\n    def cm(cls, x):\n        return (cls.__name__, x)\n")
     if style == "namedtuple":
@@ -361,6 +366,8 @@ def render_class(style, inv, child, dbc, contracts):
             if not dbc:
                 w[-1] = deco + "class Root(abc.ABC):\n"
             w.append("    v = 1\n    @abc.abstractmethod\n    def am(self):\n        return 0\n    @property\n    @abc.abstractmethod\n    def ap(self):\n        return 0\n")
+            # ... and an abstract method which (in the contracted twin) carries a contract as well
+            w.append(("    @icontract.require(lambda self: True)\n" if contracts else "") + "    @abc.abstractmethod\n    def amc(self):\n        return 0\n")
         elif style == "descriptors":
             # members which are descriptors of other kinds than function / property / staticmethod / classmethod
             w.append("    def __init__(self):\n        self.v = 1\n"
@@ -448,8 +455,12 @@ def class_script(ns, style, child):
         rec("abstractmethods", lambda: tuple(sorted(Root.__abstractmethods__)))
         rec("am_flag", lambda: getattr(inspect.getattr_static(Root, "am"), "__isabstractmethod__", False))
         rec("ap_flag", lambda: getattr(inspect.getattr_static(Root, "ap"), "__isabstractmethod__", False))
-        Impl = type("Impl", (Root,), {"am": lambda self: 1, "ap": property(lambda self: 2)})
+        Impl = type("Impl", (Root,), {"am": lambda self: 1, "ap": property(lambda self: 2), "amc": lambda self: 3})
         Partial = type("Partial", (Root,), {"am": lambda self: 1})
+        Partial2 = type("Partial2", (Root,), {"am": lambda self: 1, "ap": property(lambda self: 2)})
+        rec("amc_flag", lambda: getattr(inspect.getattr_static(Root, "amc"), "__isabstractmethod__", False))
+        rec("Partial2()", lambda: type(Partial2()).__name__)
+        rec("Partial2_abstractmethods", lambda: tuple(sorted(Partial2.__abstractmethods__)))
         rec("Impl()", lambda: (Impl().am(), Impl().ap, Impl().pub(1)))
         rec("Partial()", lambda: type(Partial()).__name__)
         rec("Partial_abstractmethods", lambda: tuple(sorted(Partial.__abstractmethods__)))
@@ -486,10 +497,14 @@ def class_script(ns, style, child):
         if style == "getattr_fallback":
             rec("missing", lambda: r.nope)
             rec("hasattr", lambda: (hasattr(r, "nope"), hasattr(r, "v")))
+        if style in ("no_init", "plain", "slots", "init_args", "descriptors"):
+            # object.__new__ reached through an instance (it is a static method)
+            rec("new_via_instance", lambda: type(r.__new__(Root)) is Root)
         rec("isinstance", lambda: isinstance(r, Root))
         rec("type", lambda: type(r) is Root)
         if style == "user_new":
             rec("made", lambda: r.made)
+    rec("tag", lambda: (inspect.getattr_static(Root, "tg").tag, Root.tg.__name__))
     rec("util_through_class", lambda: Root.util(3))   # a plain function kept in the class body and used through the class
     rec("doc_p", lambda: Root.p.__doc__)
     rec("doc_q", lambda: Root.q.__doc__)
